@@ -494,6 +494,7 @@ class Engine:
         self._known_cache = {}
         self._known_sig = {}
         self.immutable_ids = set()
+        self.attr_log = {}
         self.segments = {}  # ostream id -> [(producer, appended segment)] in program order on this path
         self.ctx_mode = "prove"
         self.seq_facts = {}
@@ -1388,6 +1389,7 @@ class Engine:
                 raise RaiseExc(classes[idx - 1], (), node)
         if short not in getattr(self.contract, "frame_preserving", ()):
             self.ghost["heapver"] = self.ghost.get("heapver", 0) + 1
+            self.attr_log = {}
         return res
 
     def _havoc_cell(self, ref):
@@ -1512,7 +1514,9 @@ class Engine:
                     hook(self.ctx, Event("setattr", target.attr, o, (v,), {}, len(self.pc), target))
             elif isinstance(o, SOpq) and self.abstract:
                 self.event("setattr", target.attr, o, (v,), {}, target)
-                self.ghost["heapver"] = self.ghost.get("heapver", 0) + 1
+                # attribute store on an opaque object: recorded in a write log that later reads consult
+                # (obj == written ? value : earlier value); unknown callees clear the log (heap version bump)
+                self.attr_log.setdefault(target.attr, []).append((o, v))
             else:
                 raise EngineError("attribute assignment on %r" % (o,))
         elif isinstance(target, ast.Subscript):
@@ -1860,6 +1864,10 @@ class Engine:
                 else:
                     d[field] = self.fresh_like(cur, "%s.%s@%s" % (self.heap[oid].get("label", "o%d" % oid), field, spec.name))
                 self.heap[oid] = d
+        if self.abstract:
+            # the loop may store attributes of opaque objects / call unknown code: forget the write log
+            self.ghost["heapver"] = self.ghost.get("heapver", 0) + 1
+            self.attr_log = {}
         for gname in spec.ghosts:
             if gname in self.ghost:
                 self.ghost[gname] = self.fresh_like(self.ghost[gname], "%s@%s" % (gname, spec.name))
